@@ -43,7 +43,8 @@
 //! (the header is not the single-space canonical `kind Type.field` form the patterns spell),
 //! `no-overload:whitespace-set-incomplete` (a leading space, tab or line feed is not stripped),
 //! `no-overload:other`, `wrong-overload:prefix` (an earlier overload's pattern is a prefix),
-//! `wrong-overload:return-type`, `wrong-overload:underscore-name-collision` (the return type
+//! `wrong-overload:return-type`, `wrong-overload:import-path`,
+//! `wrong-overload:underscore-name-collision` (the return type
 //! has the expected name but is imported from another declaration's directory: `A.b__c` and
 //! `A__b.c` share `A__b__c__param`).
 
@@ -461,8 +462,13 @@ pub fn check_literal(iso: &IsoFile, lit: &IsoLiteral) -> Result<(), Fail> {
                 if *p != expected_path {
                     // the name is right and the file is wrong: two declarations `A.b__c` / `A__b.c`
                     // share the identifier `A__b__c__param`
+                    let sig = if crate::collapses_to_same_identifier(p, &expected_path) {
+                        "wrong-overload:underscore-name-collision"
+                    } else {
+                        "wrong-overload:import-path"
+                    };
                     return Err(Fail::new(
-                        "wrong-overload:underscore-name-collision",
+                        sig,
                         format!(
                             "{} {}.{}: selected {} whose return type is imported from {}, expected {}",
                             lit.kind.keyword(),
